@@ -148,6 +148,12 @@ class AsyncListener:
         self.data = data
         self.last_time = now
         self.last_message = msg
+        # Duplicate suppression is only sound for back to back copies: what is
+        # received on one socket can undo the effect of the datagram another
+        # socket of this instance saw last, so that one has to be processed again
+        for protocol in self.zc.engine.protocols:
+            if protocol is not self:
+                protocol.data = None
         if msg.valid is True:
             if debug:
                 log.debug(
